@@ -609,3 +609,70 @@ func freshSeedLine(t []string) string {
 }
 
 func init() { handlers["freshseed"] = freshSeedLine }
+
+// unseededseed <hexsrc> : a context that was never seeded draws from the shared source; the seed it reports before a run, restored into
+// a second context, must replay that run's dice, and both must report the same seed afterwards
+func unseededSeedLine(t []string) string {
+	if len(t) != 2 {
+		return "bad-op"
+	}
+	src, ok := unhx(t[1])
+	if !ok {
+		return "bad-op"
+	}
+	return safely(func() string {
+		a := ds.NewVM()
+		a.Config.OpCountLimit = 30000
+		s0, err := a.GetCurSeed()
+		if err != nil {
+			return "err-getcurseed"
+		}
+		ra := runOne(a, src)
+		s1, _ := a.GetCurSeed()
+		b := &ds.Context{}
+		b.Seed = s0
+		b.Init()
+		b.Config.OpCountLimit = 30000
+		rb := runOne(b, src)
+		s2, _ := b.GetCurSeed()
+		va, vb := strings.SplitN(ra, " d=", 2)[0], strings.SplitN(rb, " d=", 2)[0]
+		if va == vb && fmt.Sprintf("%x", s1) == fmt.Sprintf("%x", s2) && fmt.Sprintf("%x", s0) != fmt.Sprintf("%x", s1) {
+			return "same " + va
+		}
+		return fmt.Sprintf("differ unseeded=%s seed-after=%x | replay=%s seed-after=%x | seed-before=%x", va, s1, vb, s2, s0)
+	})
+}
+
+func init() { handlers["unseededseed"] = unseededSeedLine }
+
+// modeseq <cfg> <seed> <hexsrc> : the usual range query on ONE context — the same text in min mode, then max mode, then normally (the host
+// flips Config.DiceMinMode / DiceMaxMode between the runs); prints the three results
+func modeSeqLine(t []string) string {
+	if len(t) != 4 {
+		return "bad-op"
+	}
+	cfg, ok := parseCfg(t[1])
+	src, ok2 := unhx(t[3])
+	if !ok || !ok2 {
+		return "bad-op"
+	}
+	vm, ok := newVM(cfg, t[2])
+	if !ok {
+		return "bad-op"
+	}
+	return safely(func() string {
+		one := func(mn, mx bool) string {
+			vm.Config.DiceMinMode, vm.Config.DiceMaxMode = mn, mx
+			if err := vm.Run(src); err != nil {
+				return "err:" + hx(err.Error())
+			}
+			return canon(vm.Ret)
+		}
+		a := one(true, false)
+		b := one(false, true)
+		c := one(false, false)
+		return "min=" + a + " max=" + b + " rnd=" + c
+	})
+}
+
+func init() { handlers["modeseq"] = modeSeqLine }
